@@ -57,6 +57,9 @@ func (h *c19H) frames() int {
 	if h.cfg.Frames > 0 {
 		return h.cfg.Frames
 	}
+	if n := 2*h.cfg.W + 3; n > 6 {
+		return n // at least 3 read-only frames in front of the writers' ranges
+	}
 	return 6
 }
 
